@@ -89,7 +89,7 @@ def relayout_files(rng, rows):
         cols = [c for c in gen.COLS if c in set(base_cols) | set(need)]
         rng.shuffle(cols)
         n_extra = rng.choice([0, 0, 1, 2, 3, 6, 10])
-        extras = ["x-col-%d" % i for i in range(n_extra)]
+        extras = ["x-col-%d" % i for i in range(n_extra)] + [""] * rng.choice([0, 0, 0, 1, 2])    # spacer columns without a name
         layout = cols + extras
         rng.shuffle(layout)
         hs = header_style(rng)
@@ -118,6 +118,37 @@ def order_matters(rows):
     return any(len(v) >= 2 for v in seen.values())
 
 
+def order_check(h, res):
+    """'Transactions are processed per security in settlement-date order, ties broken by position in the concatenated
+    input': the Buy/Sell/RoC rows of each table follow that order (a rejected security shows a prefix)."""
+    if not res.get("ok"):
+        return None
+    by = {}
+    for idx, r in enumerate(h["rows"]):
+        if r["action"] in ("Buy", "Sell", "RoC"):
+            by.setdefault(r["sec"], []).append((r["sd"], idx, r))
+    for sec, t in res["tables"].items():
+        col = {x: i for i, x in enumerate(t["header"])}
+        want = [(r["td"], r["sd"], r["action"], Fraction(r["shares"]) if r["action"] != "RoC" else None) for _, _, r in sorted(by.get(sec, []), key=lambda x: (x[0], x[1]))]
+        got = []
+        for r in t["rows"]:
+            tx = r[col["TX"]]
+            if tx not in ("Buy", "Sell", "RoC"):
+                continue
+            try:
+                sh = Fraction(r[col["Shares"]]) if tx != "RoC" else None
+            except (ValueError, ZeroDivisionError):
+                sh = None
+            got.append((r[col["Trade Date"]], r[col["Settl. Date"]], tx, sh))
+        if t["errors"]:
+            want = want[:len(got)]
+        if got != want:
+            k = next((i for i, (a, b) in enumerate(zip(got, want)) if a != b), min(len(got), len(want)))
+            return {"what": "rows are not processed in (settlement date, input position) order", "sec": sec, "index": k,
+                    "tool": [str(x) for x in got[k]] if k < len(got) else None, "expected": [str(x) for x in want[k]] if k < len(want) else None}
+    return None
+
+
 def c07_worker(shard):
     K = shard["K"]
     cases = []
@@ -144,7 +175,16 @@ def c07_worker(shard):
             j["unjudged"] = True
             out.append(j)
             continue
+        try:
+            od = order_check(h, rb)
+        except (KeyError, ValueError) as e:
+            od = None
+        if od is not None:
+            j["findings"].append({"what": od["what"], "diff": od, "layout_files": []})
+            j["history"] = h
         for c in lay:
+            if j["findings"]:
+                break
             rl = res.get(c["id"], {})
             j["n_layouts"] += 1
             d = compare_runs(rb, rl)
@@ -183,11 +223,12 @@ def compare_runs(ra, rb):
 
 def run_c07(tier):
     seed = common.seed()
-    common.build()
+    common.build(bins=True)
     V = Verdict("C07", tier)
     V.rule = ("base histories (2-4 securities, same-day clusters) x K admissible re-layouts each: partition into 1-5 files in order (pieces may be "
-              "empty), per-file column permutation, header case/padding, 0-10 unrecognised columns with junk, padded values, row permutation keeping "
-              "the order of rows with the same security and settlement date; non-trivial = base has a same-day same-security cluster of different "
+              "empty), per-file column permutation, header case/padding, 0-10 unrecognised columns with junk and 0-2 columns without a header name, padded values, row permutation keeping "
+              "the order of rows with the same security and settlement date; plus the stated processing order checked on every base run, and the real binary given "
+              "2-4 files whose command-line order is the reverse of their alphabetical order; non-trivial = base has a same-day same-security cluster of different "
               "actions and >=2 securities; K=6 quick, 30 thorough")
     n = {"quick": 500, "thorough": 8000}[tier]
     K = {"quick": 6, "thorough": 30}[tier]
@@ -220,13 +261,71 @@ def run_c07(tier):
                             {"kind": "relayout", "prop": "C07", "history": j["history"], "layout_files": f["layout_files"]},
                             {"what": f["what"]})
     V.extra["layout_pairs_compared"] = nl
-    return V.finish(floor_eval=100, floor_nontrivial=10, floors={"layout_pairs_compared": 1000})
+    c07_cli(V, pop, tier)
+    return V.finish(floor_eval=100, floor_nontrivial=10, floors={"layout_pairs_compared": 1000, "binary_layout_pairs": 4})
+
+
+def c07_cli(V, pop, tier):
+    """'several CSV files given in order', through the real binary: the files are named so that the order given on the
+    command line is the reverse of their alphabetical order, and the result must equal the single-file run."""
+    wd = common.workdir("c07cli")
+    try:
+        k = 8 if tier == "quick" else 60
+        done = 0
+        for cid, name, h in pop:
+            if done >= k:
+                break
+            if not order_matters(h["rows"]) or len(h["rows"]) < 6:
+                continue
+            rng = common.rng_for(cid, "cli")
+            rows = h["rows"]
+            # one cut falls between two rows of one security that settle on the same day and differ in kind, so that the
+            # order of the files decides the order of those two rows
+            pairs = [(i, j) for i in range(len(rows)) for j in range(i + 1, len(rows))
+                     if rows[i]["sec"] == rows[j]["sec"] and rows[i]["sd"] == rows[j]["sd"] and rows[i]["action"] != rows[j]["action"]]
+            if not pairs:
+                continue
+            i_, j_ = rng.choice(pairs)
+            cuts = sorted({rng.randint(i_ + 1, j_)} | set(rng.sample(range(1, len(rows)), min(len(rows) - 1, rng.choice([0, 1, 2])))))
+            pieces = [rows[i:j] for i, j in zip([0] + cuts, cuts + [len(rows)])]
+            cols = gen.used_cols(rows)
+            one = os.path.join(wd, "%s-all.csv" % cid)
+            with open(one, "w") as f:
+                f.write(gen.rows_to_csv(rows, cols))
+            paths = []
+            for i, pc in enumerate(pieces):
+                p = os.path.join(wd, "%s-%s_part.csv" % (cid, "zyxwv"[i]))      # given order = reverse alphabetical order
+                with open(p, "w") as f:
+                    f.write(gen.rows_to_csv(pc, cols))
+                paths.append(p)
+            init = []
+            for sp in gen.init_args(h.get("init", {})):
+                init += ["-b", sp]
+            ra = common.run_cli("acb", [one, "--print-full-values"] + init, home=wd)
+            rb = common.run_cli("acb", paths + ["--print-full-values"] + init, home=wd)
+            done += 1
+            V.bump("binary_layout_pairs")
+            if ra["rc"] != rb["rc"] or ra["out"] != rb["out"]:
+                V.violation("acb on %d files given in order differs from acb on the concatenated file [%s]" % (len(paths), name),
+                            {"kind": "cli_files", "prop": "C07", "history": h, "pieces": [len(x) for x in pieces]},
+                            {"what": "binary: files given in order"})
+    finally:
+        common.cleanup(wd)
 
 
 def replay_c07(rec):
     c = rec["case"]
     h = c["history"]
     common.build()
+    if c.get("kind") == "cli_files" or not c.get("layout_files"):
+        r = common.run_harness("app", [history_to_case("base", h)], tag="c07r", nproc=1)["base"]
+        d = order_check(h, r)
+        print("replay (order oracle on the single-file run):", json.dumps(d)[:600])
+        if d:
+            print("VIOLATION property=C07 replay=%s" % sys.argv[2])
+            return 1
+        print("replay: the file-order finding needs the binary; re-run ./check C07 quick")
+        return 0
     cases = [history_to_case("base", h),
              {"id": "lay", "files": c["layout_files"], "init": gen.init_args(h.get("init", {})), "full": True, "want": ["model"]}]
     res = common.run_harness("app", cases, tag="c07r", nproc=1)
@@ -258,6 +357,35 @@ def rename_secs(h, names):
     return {"rows": rows, "init": init, "features": h.get("features", [])}
 
 
+AF_SPELLINGS = {"default": ["", "Default", "default", "DEFAULT", " Default "], "default (R)": ["(R)", "Default (R)", "default (r)", "(r)"],
+                "spouse": ["Spouse", "spouse", "SPOUSE"], "spouse (R)": ["Spouse (R)", "spouse (r)", "Spouse  (R)"],
+                "kid": ["Kid", "kid", "KID"], "kid (R)": ["Kid (R)", "kid (r)"]}
+
+
+def respell_affiliates(rng, rows):
+    """The same affiliates written in other, equivalent spellings (case, padding, blank for the default one), row by row."""
+    for r in rows:
+        if r["action"] == "Split" and not (r.get("af") or "").strip():
+            continue        # blank on a split means "all affiliates", not the default one
+        k = ref.af_norm(r.get("af"))
+        if k in AF_SPELLINGS and rng.random() < 0.6:
+            r["af"] = rng.choice(AF_SPELLINGS[k])
+            if r["action"] == "Split" and not r["af"].strip():
+                r["af"] = "Default"
+
+
+def table_sig_afnorm(t):
+    """table_sig with the Affiliate column reduced to the affiliate's identity and messages lower-cased: the spelling
+    shown for an affiliate is the first one met in the whole input, which is not a figure of the security."""
+    sig = table_sig(t)
+    ci = t["header"].index("Affiliate") if "Affiliate" in t["header"] else None
+    if ci is not None:
+        sig["rows"] = [[ref.af_norm(c) if i == ci else c for i, c in enumerate(r)] for r in sig["rows"]]
+    sig["errors"] = [e.lower() for e in sig["errors"]]
+    sig["notes"] = [e.lower() for e in sig["notes"]]
+    return sig
+
+
 def c08_population(seed, n):
     pop = []
     for i in range(n):
@@ -271,6 +399,9 @@ def c08_population(seed, n):
                        start_year=ka.start_year)
         a = rename_secs(gen.HistoryGen(rng, ka).gen(), SECS_A)
         b = rename_secs(gen.HistoryGen(rng, kb).gen(), SECS_B)
+        if rng.random() < 0.35:
+            respell_affiliates(rng, a["rows"])
+            respell_affiliates(rng, b["rows"])
         # random interleaving preserving each side's own order
         ra, rb = list(a["rows"]), list(b["rows"])
         u = []
@@ -317,7 +448,7 @@ def c08_judge(a, b, ab, ra, rb, rab):
             if t2 is None:
                 f.append({"what": "security missing from the combined run", "sec": sec})
                 return f, info
-            d = first_diff(table_sig(t), table_sig(t2))
+            d = first_diff(table_sig_afnorm(t), table_sig_afnorm(t2))
             if d:
                 d["sec"] = sec
                 f.append({"what": "a security's table changed when other securities were added", "diff": d})
